@@ -28,7 +28,7 @@ func recPaths(ti *mon.TraceIndex, rec string) []string {
 func c08(args []string) {
 	c := chk.New("C08", "exploration", args)
 	c.Build(false)
-	c.Rule("[repeated input sets] the same input reaches a process a second time while its first task has executed but still waits behind a slow head: it leaves the port where it was received; chains and trees of 1-3 processing stages with 3-40 items; recorder components in front of every in-port (single sender, so their log is the arrival order) and behind every out-port; task durations assigned so that completion order is the reverse or a random permutation of arrival order; slots in {2,4,16}, SCIPIPE_BUFSIZE in {1,3,128} (and 0 = unbuffered with a two-out-port process read by two recorders), a parameter source fanned out to the parameter ports of a slow and a quick process (values > buffer), slow downstream recorders (buffers fill up), some middle tasks skipped because their outputs pre-exist, fan-in of two upstreams through a recording merge point; bundled components between recorders (FileCombinator: first occurrences on each out-port in arrival order; IPSelectorSync: selected items in arrival order; MapToTags: pass-through, also with a map function that tags only every third file; sub-stream members in a joined placeholder, also with a file arriving twice) with file names whose arrival order is not lexicographic; oracle: sequence behind each out-port == image (through the reference's task -> out-path map) of the sequence recorded in front of the in-port; projection of a merged sequence onto each upstream == that upstream's own output sequence; every item passing a recorder behind a non-streaming out-port of a command / Go-function process must be a file at that moment (the recorder stats it on reception). distinct_nontrivial = runs in which the completion order of some process really differed from its arrival order (measured from the commands' end stamps), distinct by (shape, config, permutation)")
+	c.Rule("[pile-up] 60-110 inputs with a 1.5 s task at position five and enough slots for all: more than 50 finished tasks wait behind the head and must leave in arrival order; [repeated input sets] the same input reaches a process a second time while its first task has executed but still waits behind a slow head: it leaves the port where it was received; chains and trees of 1-3 processing stages with 3-40 items; recorder components in front of every in-port (single sender, so their log is the arrival order) and behind every out-port; task durations assigned so that completion order is the reverse or a random permutation of arrival order; slots in {2,4,16}, SCIPIPE_BUFSIZE in {1,3,128} (and 0 = unbuffered with a two-out-port process read by two recorders), a parameter source fanned out to the parameter ports of a slow and a quick process (values > buffer), slow downstream recorders (buffers fill up), some middle tasks skipped because their outputs pre-exist, fan-in of two upstreams through a recording merge point; bundled components between recorders (FileCombinator: first occurrences on each out-port in arrival order; IPSelectorSync: selected items in arrival order; MapToTags: pass-through, also with a map function that tags only every third file; sub-stream members in a joined placeholder, also with a file arriving twice) with file names whose arrival order is not lexicographic; oracle: sequence behind each out-port == image (through the reference's task -> out-path map) of the sequence recorded in front of the in-port; projection of a merged sequence onto each upstream == that upstream's own output sequence; every item passing a recorder behind a non-streaming out-port of a command / Go-function process must be a file at that moment (the recorder stats it on reception). distinct_nontrivial = runs in which the completion order of some process really differed from its arrival order (measured from the commands' end stamps), distinct by (shape, config, permutation)")
 	c.Assume("recorders are harness components written against the public BaseProcess/InPort/OutPort API")
 	rng := c.Rand("c08")
 	type job struct {
@@ -531,6 +531,7 @@ func c08(args []string) {
 	})
 	c08edgeConfigs(c)
 	c08duplicates(c)
+	c08pileup(c)
 	c.Finish()
 }
 
@@ -698,5 +699,59 @@ func c08duplicates(c *chk.Ctx) {
 		}
 		c.Count("repeated_input_runs", 1)
 		c.Nontrivial(fmt.Sprintf("duporder|%d|%v", i%3, cfg))
+	})
+}
+
+// c08pileup: many started-but-uncollected tasks behind a slow head: 60 inputs, the fifth task takes 1.5 s, all others
+// a few milliseconds, enough slots for everything to run - more than 50 finished tasks wait in the process's queue
+// until the head is collected, then leave in arrival order.
+func c08pileup(c *chk.Ctx) {
+	run.Parallel(c.Pick(2, 6), func(i int) {
+		root := c.CaseDir()
+		defer c.Drop(root)
+		n := 60 + 10*i
+		s := &spec.Spec{Name: "pileup", MaxTasks: 16, Sources: map[string]string{}}
+		src := &spec.Proc{Name: "src", Kind: spec.KFileSource}
+		for k := 0; k < n; k++ {
+			f := fmt.Sprintf("pu_%03d.txt", (k*37+i)%n)
+			src.Files = append(src.Files, f)
+			s.Sources[f] = f
+		}
+		s.Procs = append(s.Procs, src, &spec.Proc{Name: "RIN", Kind: spec.KRecorder},
+			&spec.Proc{Name: "P", Kind: []string{spec.KCmd, spec.KGoFunc}[i%2], Cmd: spec.BuildCmd("P", []spec.PortDecl{{Name: "in"}}, []spec.PortDecl{{Name: "out"}}, nil, nil, nil), Outs: []*spec.Out{{Port: "out", Pattern: "{i:in|basename}.P.out"}}},
+			&spec.Proc{Name: "ROUT", Kind: spec.KRecorder})
+		s.Conns = append(s.Conns, &spec.Conn{From: "src.out", To: "RIN.in"}, &spec.Conn{From: "RIN.out", To: "P.in"}, &spec.Conn{From: "P.out", To: "ROUT.in"})
+		bh := vproto.Behaviours{vproto.TaskKey("P", []vproto.KV{{K: "in", V: src.Files[4]}}, nil, nil): {"sleep": "1500"}}
+		cfg := Cfg{Buf: []int{128, 1, 3}[i%3], Procs: 4, NoHooks: i%2 == 0}
+		desc := map[string]interface{}{"items": n, "slow_task": src.Files[4], "cfg": cfg, "spec": s}
+		res := execSpec(c, root, s, cfg, bh, false, 0)
+		if res.Hang != "" {
+			if strings.HasPrefix(res.Hang, "deadlock") {
+				c.Violation("pileup-hang", res.Hang, desc)
+			} else {
+				c.Inconclusive(res.Hang)
+			}
+			return
+		}
+		if res.Exit != 0 || !res.Returned {
+			c.Violation("pileup-run-failed", fmt.Sprintf("exit %d: %s", res.Exit, tail(res.Output(), 400)), desc)
+			return
+		}
+		ti := mon.Index(res.Trace)
+		arr, got := recPaths(ti, "RIN"), recPaths(ti, "ROUT")
+		var want []string
+		for _, a := range arr {
+			want = append(want, a+".P.out")
+		}
+		if strings.Join(got, " ") != strings.Join(want, " ") {
+			k := 0
+			for k < len(got) && k < len(want) && got[k] == want[k] {
+				k++
+			}
+			c.Violation("order-not-preserved:pile-up-behind-a-slow-head", fmt.Sprintf("%d items; the sequences differ from position %d on: emitted %v, arrival order gives %v", n, k, clipList(got[imin(k, len(got)):], 6), clipList(want[imin(k, len(want)):], 6)), desc)
+			return
+		}
+		c.Count("pileup_runs", 1)
+		c.Nontrivial(fmt.Sprintf("pileup|%d|%v", n, cfg))
 	})
 }
